@@ -37,9 +37,11 @@ LEVEL_TEXT = ("Theorems over all line sequences, all option combinations and all
               "fails) for every list of lines of characters. "
               "Regex termination: the matcher is a fuel-free backtracking matcher (its quantifier counter is proved not to cut "
               "anything off); under criterion A1 (every unbounded quantifier repeats one character matcher) its step count is "
-              "proved to be at most bound r n K <= coef(r)*(n+1)^stars(r)*(K+1) for match, and (n+1) times that for search/sub; every "
-              "regex found in the three parsers is proved (by computation on the regenerated ASTs) to meet criterion A2 = A1 or a "
-              "delimited deterministic iteration, all but numpy._RE_PARAMETER meeting A1 itself. "
+              "proved to be at most bound r n K <= coef(r)*(n+1)^stars(r)*(K+1) for match, and (n+1) times that for search/sub; under "
+              "criterion A2 (A1, or an iteration 'delimiter + deterministic rest followed by the delimiter', LL(1) condition decided "
+              "with a class-disjointness test proved sound for well-formed characters) at most bound2 r n K; every regex found in the "
+              "three parsers is proved (by computation on the regenerated ASTs) to meet A2, hence C12_repo_regexes_bounded: each of "
+              "them matches every well-formed subject within bound2 steps; all but numpy._RE_PARAMETER meet A1 itself. "
               "Ties: translator (fail closed), differential runs comparing section kinds, titles, texts, item names / annotation "
               "sources / descriptions and Sphinx field values with Docstring.parse, an oracle stream comparing the model matcher with "
               "CPython's re on every regex, the model-computed line features with CPython's str/re, and adversarial inputs "
@@ -47,8 +49,6 @@ LEVEL_TEXT = ("Theorems over all line sequences, all option combinations and all
 LEVEL_NOTE = ("Trusted: Coq kernel, extraction, CPython's re._parser as front end of the regex translator (the parse tree of the engine that "
               "runs the pattern), CPython's str methods for the fields of non-ASCII characters (word / space / decimal / lower / "
               "case-insensitive ASCII letter), the reconstruction of text sections from line indices. "
-              "Partial: for the delimited iteration of numpy._RE_PARAMETER (criterion A2) the step bound is not proved, the criterion is "
-              "only decided; the adversarial stream and the watchdog cover it. "
               "Not modelled: parse_docstring_annotation / compile and the expression builder (annotation sources are compared, their "
               "compilation is exercised by the direct evaluation only), textwrap.dedent of Numpy descriptions (descriptions of "
               "Numpy items other than parameters are not compared), look-ups on the parent beyond 'is there an annotation' "
@@ -57,7 +57,7 @@ LEVEL_NOTE = ("Trusted: Coq kernel, extraction, CPython's re._parser as front en
               "repaired by fix: commits and kept as must-pass corpus cases. No known finding is left.")
 MODEL = ("Model.C12_run", "run_C12x")
 MODEL_TARGETS = ["Model/C12_run.vo"]
-COQ_TARGETS = ["Proofs/C12_docstrings.vo", "Proofs/C12_regex.vo", "Proofs/C12_chars.vo"]
+COQ_TARGETS = ["Proofs/C12_docstrings.vo", "Proofs/C12_regex.vo", "Proofs/C12_regex2.vo", "Proofs/C12_chars.vo"]
 RULE = ("texts of <=12 lines (some longer) assembled from section keywords, separators, indentation levels, item syntaxes and prose: "
         "(a) exhaustive sequences of <=3 line classes (thorough: <=4) from a 13-letter alphabet per style, (b) seeded random fragment sequences, "
         "(c) structured mostly-valid docstrings per style with seeded perturbations (dropped blank lines, shifted indents), "
